@@ -288,6 +288,8 @@ def run(ctx):
             continue
         used += n
     tie_broken = mem_tie.run_tie(ctx, exe, "C12")
+    # the vnacal_new_t allocation skeleton (coq/Mem/NewAlloc.v): generated histories and every (op, k) of the directed ones
+    tie_broken = tie_broken + mem_tie.run_new_tie(ctx, "C12")
     fe.flush()
     ctx.extra["faulted_replays"] = fe.jobs_run
     ctx.extra["faults_injected"] = fe.injected
